@@ -304,6 +304,9 @@ func (ctrl *DefaultController) importLog(ctx context.Context, store Store, log l
 						return nil, fmt.Errorf("failed to find schema: %w", err)
 					}
 				}
+				if _, err := payload.Transaction.Postings.Validate(); err != nil {
+					return nil, NewErrImport(fmt.Errorf("invalid postings in log %d: %w", *log.ID, err))
+				}
 				if err := store.CommitTransaction(ctx, &payload.Transaction); err != nil {
 					return nil, fmt.Errorf("failed to commit transaction: %w", err)
 				}
@@ -320,6 +323,9 @@ func (ctrl *DefaultController) importLog(ctx context.Context, store Store, log l
 				)
 				if err != nil {
 					return nil, fmt.Errorf("failed to revert transaction: %w", err)
+				}
+				if _, err := payload.RevertTransaction.Postings.Validate(); err != nil {
+					return nil, NewErrImport(fmt.Errorf("invalid postings in log %d: %w", *log.ID, err))
 				}
 				if err := store.CommitTransaction(ctx, &payload.RevertTransaction); err != nil {
 					return nil, fmt.Errorf("failed to commit transaction: %w", err)
